@@ -554,11 +554,19 @@ func (o *operation) handle() {
 	if serverRequestBuilder != nil {
 		var hasBody bool
 		var err error
-		o.request.URL.Path, o.request.URL.RawQuery, o.request.Method, hasBody, err =
+		var escapedPath string
+		escapedPath, o.request.URL.RawQuery, o.request.Method, hasBody, err =
 			serverRequestBuilder.requestLine(o, reqMsg.msg)
 		if err != nil {
 			o.reportError(err)
 			return
+		}
+		// The request line is computed in escaped form; URL.Path holds the
+		// decoded form and URL.RawPath the exact encoding to use on the wire.
+		if unescapedPath, unescapeErr := url.PathUnescape(escapedPath); unescapeErr == nil {
+			o.request.URL.Path, o.request.URL.RawPath = unescapedPath, escapedPath
+		} else {
+			o.request.URL.Path, o.request.URL.RawPath = escapedPath, ""
 		}
 		skipBody = !hasBody
 		// Recompute if the server needs to prep the request, now that we've modified
@@ -569,6 +577,7 @@ func (o *operation) handle() {
 	} else {
 		// if no request line builder, use simple request layout
 		o.request.URL.Path = o.methodConf.methodPath
+		o.request.URL.RawPath = ""
 		o.request.URL.RawQuery = ""
 		o.request.Method = http.MethodPost
 	}
